@@ -42,7 +42,7 @@ def floors(tier):
     return {"cls:feature_interaction_query": 300, "distinct_nontrivial": 200, "re:ForAll(@.*)?\\.enter": 1000, "cls:U>=2": 1000, "cls:cond:compound": 500,
             "cls:cond:or": 200, "cls:cond:and": 200, "cls:cond:not": 100, "cls:mentions:both": 300,
             "cls:mentions:universal_only": 30, "cls:mentions:free_only": 30, "cls:extra:first": 100,
-            "cls:extra:second": 100, "cls:u_expr": 100, "cls:u_restricted_entity": 300, "cls:free_variable_not_selected": 300, "cls:u_scalar_attribute_with_zero": 200, "cls:u_correlated_subquery": 300, "cls:u_flatten_of_plain_numbers": 200, "cls:caching_off": 200, "cls:nfree=2": 200, "cls:nfree=3": 50}
+            "cls:extra:second": 100, "cls:u_expr": 100, "cls:u_restricted_entity": 300, "cls:free_variable_not_selected": 300, "cls:u_scalar_attribute_with_zero": 200, "cls:u_correlated_subquery": 300, "cls:u_flatten_of_plain_numbers": 200, "re:cls:condition_mentions_a_flattened_element:.*": 150, "cls:caching_off": 200, "cls:nfree=2": 200, "cls:nfree=3": 50}
 
 
 def gen_corr_case(rng):
@@ -73,7 +73,13 @@ def gen_flatprim_case(rng):
             # bind "parent": the earlier conjunct binds the parent (several parents); bind "elem": one parent only, the earlier
             # conjunct binds the free variable the universal values are compared with
             "flatprim": {"parents": w["parents"], "op": rng.choice(["!=", "<", ">=", "=="]), "k0": rng.randint(0, 3),
-                         "bind": rng.choice(["parent", "elem"])}}
+                         "bind": rng.choice(["parent", "elem"]),
+                         # shape "cond_on_flatten": the universal is a plain variable u over a few limits and the CONDITION mentions
+                         # the flattened element of the parent, for_all(u, OP(o, u.n)); rows are (parent, element); the other
+                         # condition comes before the for_all, after it, or there is none (the element is then unbound when the
+                         # for_all is reached)
+                         "shape": rng.choice(["universal_is_flatten", "universal_is_flatten", "cond_on_flatten"]),
+                         "limits": rng.sample(range(-1, 5), rng.randint(1, 3)), "where": rng.choice(["before", "after", "none", "elem_before"])}}
 
 
 def gen_case(rng):
@@ -256,6 +262,8 @@ def _flatprim(case, caching, times=1):
     from entity_query_language.cache_data import enable_caching, disable_caching
     from . import c16
     fp = case["flatprim"]
+    if fp.get("shape") == "cond_on_flatten":
+        return _flatcond(case, caching, times)
     by_elem = fp.get("bind") == "elem"
     es, ps = c16.build_world({"parents": fp["parents"][:1] if by_elem else fp["parents"]}, True)
     ns = [c16.E(v) for v in c16.PRIMS]
@@ -277,8 +285,39 @@ def _flatprim(case, caching, times=1):
         enable_caching()
 
 
+def _flatcond(case, caching, times=1):
+    from entity_query_language import symbolic_mode, an, set_of, for_all, let
+    from entity_query_language.entity import flatten
+    from entity_query_language.cache_data import enable_caching, disable_caching
+    from . import c16
+    fp = case["flatprim"]
+    es, ps = c16.build_world({"parents": fp["parents"]}, True)
+    us = [c16.E(v) for v in fp["limits"]]
+    op = C.OPS[fp["op"]]
+    where = fp["where"]
+    other = (lambda p_, v: v >= fp["k0"] - 2) if where == "elem_before" else (lambda p_, v: True) if where == "none" else \
+        (lambda p_, v: p_.k >= fp["k0"])
+    exp = sorted((f"Par{i}", v) for i, p_ in enumerate(ps) for v in p_.items if other(p_, v) and all(op(v, u.n) for u in us))
+    lab = {id(p_): f"Par{i}" for i, p_ in enumerate(ps)}
+    (enable_caching if caching else disable_caching)()
+    try:
+        with symbolic_mode():
+            r = let(c16.Par, ps)
+            u = let(c16.E, us)
+            o = flatten(r.items)
+            fa = for_all(u, op(o, u.n))
+            conds = {"before": [r.k >= fp["k0"], fa], "after": [fa, r.k >= fp["k0"]], "none": [fa],
+                     "elem_before": [o >= fp["k0"] - 2, fa]}[where]
+            q = an(set_of([r, o], *conds))
+        return [sorted((lab.get(id(row[r]), "?"), row[o]) for row in q.evaluate()) for _ in range(times)], exp, ps, us
+    finally:
+        enable_caching()
+
+
 def check_flatprim_case(case, ctx):
     fp = case["flatprim"]
+    if fp.get("shape") == "cond_on_flatten":
+        ctx.cls("cls:condition_mentions_a_flattened_element:" + fp["where"])
     ctx.cls("cls:u_flatten_of_plain_numbers")
     ctx.cls("cls:caching_on" if case["caching"] else "cls:caching_off")
     try:
